@@ -230,6 +230,12 @@ impl Ctx {
 
     /// Runs a sub-check over `cases` generated cases spread over `workers` threads.
     pub fn run<S: SubCheck>(&mut self, s: &S, cases: u32, workers: usize) {
+        // experiments only: VERIF_ONLY_SUB=<substring> restricts a run to the matching sub-checks
+        if let Ok(f) = std::env::var("VERIF_ONLY_SUB") {
+            if !f.is_empty() && !s.name().contains(&f) {
+                return;
+            }
+        }
         let workers = workers.max(1).min(cases.max(1) as usize);
         let per = (cases as usize + workers - 1) / workers;
         let slot_base = 0usize;
